@@ -88,6 +88,9 @@ def run(ctx):
               'the parser reads its input by other means: %s' % [(f.short, norm(n)[:40]) for f, n in bad][:3])
     ctx.floor('C13.2', nio, 1, 'readline call in the parser')
     # ---- C13.3 -------------------------------------------------------------------------------------------
+    # words after -r belong to the program even when they look like our options: the split takes the first marker position
+    from .c19 import check_split
+    check_split(ctx, 'C13.3')
     f_run = repo.func('_Subprocess.run')
     rp = paths_of(repo, f_run)
     nrun = 0
